@@ -126,7 +126,7 @@ static void op_XrayInit(uint32_t j, rec_t *r, xrl_error **e) { (void)j; guarded(
 static std::string res(double v0, double v1, xrl_error *err) {
     if (!err) return hx(v0) + ":" + hx(v1) + ":ok";
     std::string s = "E" + num(err->code == XRL_ERROR_MEMORY ? XRL_ERROR_MEMORY : err->code == XRL_ERROR_INVALID_ARGUMENT ? XRL_ERROR_INVALID_ARGUMENT : XRL_ERROR_RUNTIME) +
-                    ":" + num(err->message ? fnv(err->message) : 0);
+                    ":" + num(err->code != XRL_ERROR_MEMORY && err->message ? fnv(err->message) : 0);
     xrl_error_free(err);
     return s;
 }
@@ -203,9 +203,9 @@ static void op_life(uint32_t j, rec_t *r, xrl_error **e) {
         } catch (...) { delete A; delete B; Crystal_Free(c0); c0 = NULL; throw; }
         delete A;
         Crystal_Free(c0); c0 = NULL;
-        line += "\tB=" + text(*B) + "|" + pp_queries(*B, E, h, k, l, false);
-        line += "\tBf=" + text(*B) + "|" + pp_queries(*B, E, h, k, l, true);
-        line += "\tF=" + text(*F) + "|" + pp_queries(*F, E, h, k, l, false);
+        line += "@@B=" + text(*B) + "|" + pp_queries(*B, E, h, k, l, false);
+        line += "@@Bf=" + text(*B) + "|" + pp_queries(*B, E, h, k, l, true);
+        line += "@@F=" + text(*F) + "|" + pp_queries(*F, E, h, k, l, false);
         delete B; delete F;
         r->v[0] = 1;
     });
